@@ -15,7 +15,7 @@ import (
 
 type splitGraph struct {
 	k, m     int
-	inc      [][]int // inc[entry][shared] = 0 none, 1 static, 2 dynamic, 3 re-export, 4 side-effect-only
+	inc      [][]int // inc[entry][shared] = 0 none, 1 static, 2 dynamic, 3 re-export, 4 side-effect-only, 5 export star, 6 export star through a re-exporting intermediate module
 	sharedTo [][]int // sharedTo[i][j] = 1 if shared i statically imports shared j (i<j)
 	entryDep int     // if >=0: entry 0 also imports entry entryDep (an entry point that is also a dependency)
 }
@@ -65,6 +65,15 @@ func (g *splitGraph) files() map[string]string {
 				imports = append(imports, fmt.Sprintf("export {name as %sname, inc as %sinc} from './%s.js';", sid, sid, sid))
 			case 4:
 				imports = append(imports, fmt.Sprintf("import './%s.js';", sid))
+			case 5:
+				// export star straight from the shared module (names that several stars provide are ambiguous
+				// and disappear from the entry's surface natively and in the bundle alike)
+				imports = append(imports, fmt.Sprintf("export * from './%s.js';", sid))
+			case 6:
+				// export star through a private intermediate module that re-exports the shared bindings
+				mid := fmt.Sprintf("mid_%s_%s", id, sid)
+				imports = append(imports, fmt.Sprintf("export * from './%s.js';", mid))
+				f[mid+".js"] = fmt.Sprintf("export {count as %s_%scount, inc as %s_%sinc} from './%s.js';\nexport const %s_tag = '%s';\n", id, sid, id, sid, sid, mid, mid)
 			}
 		}
 		if i == 0 && g.entryDep > 0 {
@@ -90,7 +99,7 @@ func enumSplitGraphs(tier string) []*splitGraph {
 	if tier != "quick" {
 		kms = append(kms, km{3, 3})
 	}
-	kinds := 5
+	kinds := 7
 	for _, x := range kms {
 		cells := x.k * x.m
 		total := 1
@@ -100,6 +109,8 @@ func enumSplitGraphs(tier string) []*splitGraph {
 		step := 1
 		if tier == "quick" && total > 300 {
 			step = total/300 + 1
+		} else if tier != "quick" && total > 8000 {
+			step = total/8000 + 1
 		}
 		for idx := 0; idx < total; idx += step {
 			g := &splitGraph{k: x.k, m: x.m, entryDep: -1}
@@ -207,7 +218,7 @@ var c10Cfgs = []c10Cfg{
 }
 
 func runC10(c *Check) {
-	c.Rule = "k in {2,3} entry points x m<=3 shared modules, every incidence matrix over {none, static import, dynamic import, re-export, side-effect import} (up to a stride in the quick tier), shared-module chains, an entry that is also a dependency; built with splitting x {default, minify, name templates}; every non-empty subset and order of entry points is loaded into one realm from the emitted files and compared with native loading of the sources in the same order: per-module log subsequences (each body once, own effects in order, initialised bindings, shared state), entry export surfaces, no errors; static: chunk import graph acyclic, referenced files exist; distinct = distinct native logs"
+	c.Rule = "k in {2,3} entry points x m<=3 shared modules, every incidence matrix over {none, static import, dynamic import, re-export, side-effect import, export star, export star through a re-exporting intermediate module} (up to a stride in the quick tier), shared-module chains, an entry that is also a dependency; built with splitting x {default, minify, name templates}; every non-empty subset and order of entry points is loaded into one realm from the emitted files and compared with native loading of the sources in the same order: per-module log subsequences (each body once, own effects in order, initialised bindings, shared state), entry export surfaces, no errors; static: chunk import graph acyclic, referenced files exist; distinct = distinct native logs"
 	c.Assump = []string{"Node 20 native ESM loading of the unbundled sources in the same order is the reference", "the relative order of top-level code of different modules is not compared (documented limitation of splitting)", "public path builds are not executed"}
 	pool := NewNodePool("")
 	defer pool.Close()
